@@ -186,6 +186,12 @@ class IndexInterp:
                     raise AnalysisError("arithmetic `%s`" % src(e))
             if (isinstance(a, VecObj) or isinstance(b, VecObj)) and isinstance(e.op, ast.Add) and (a == 0 and isinstance(a, int) or b == 0 and isinstance(b, int)):
                 return b if isinstance(b, VecObj) else a          # sum(...) starting from the integer 0
+            if isinstance(e.op, ast.Add) and ((isinstance(a, Matrix) and not a.writes and isinstance(b, VecObj)) or (isinstance(b, Matrix) and not b.writes and isinstance(a, VecObj))):
+                return b if isinstance(b, VecObj) else a          # an array of zeros is the neutral element of the sum of vectors
+            if isinstance(e.op, ast.Sub) and isinstance(a, Matrix) and not a.writes and isinstance(b, VecObj):
+                return VecObj(b.kind, -b.val)
+            if isinstance(e.op, ast.Sub) and isinstance(b, Matrix) and not b.writes and isinstance(a, VecObj):
+                return a
             if isinstance(a, VecObj) or isinstance(b, VecObj):
                 from .nf import v_add, v_sub, v_mul, v_div, Rat, SortError, PointV
                 from fractions import Fraction
